@@ -146,7 +146,6 @@ _struct_dict = {
 }
 
 
-@lru_cache(maxsize=65536)
 def write_struct(representation_code: RepresentationCode, value: Any) -> bytes:
     """Convert a value to bytes according to the RP66 V1 spec.
 
@@ -158,8 +157,21 @@ def write_struct(representation_code: RepresentationCode, value: Any) -> bytes:
         Value converted to bytes depending on representation_code and RP66 V1 spec.
     """
 
+    if isinstance(value, float):
+        # floats are not looked up in the cache: 0.0 and -0.0 compare (and hash) equal but are encoded differently
+        return _write_struct(representation_code, value)
+
+    return _write_struct_cached(representation_code, value)
+
+
+def _write_struct(representation_code: RepresentationCode, value: Any) -> bytes:
+    """Convert a value to bytes according to the RP66 V1 spec (see write_struct)."""
+
     func = _struct_dict.get(representation_code, None)  # get a converter corresponding to the repr code
     if func:
         return func(value)  # type: ignore  # that's the point, we're calling for any type
 
     return representation_code.convert(value)  # if no converter was found, use the one built in the enum
+
+
+_write_struct_cached = lru_cache(maxsize=65536)(_write_struct)
